@@ -126,6 +126,8 @@ def run(ctx):
                          findings.sqla_semantic_triggers, "coverage:" + style, cap=150, profile=lane2)
                 ctx.cls("style:" + style)
     for style in STYLES:
+        SC.big_list_lane(ctx, ctx.rng("biglist" + style), make_select(style, lambda x: x),
+                         findings.sqla_semantic_triggers, ctx.pick(2, 20), profile=clean)
         SC.machine_lane(ctx, ctx.rng("machine" + style), make_select(style, lambda x: x),
                         findings.sqla_semantic_triggers, ctx.pick(15, 400), profile=clean)
     for i in range(ctx.pick(500, 20000)):
